@@ -533,6 +533,12 @@ def h_iter(ctx, cfg):
             if isinstance(a, Constant) and isinstance(a.constant, CodeData):
                 out += descendants(a.constant)
         return out
+    # the same two nested code objects loaded alternately by four instructions (a duplicated finally body with two lambdas): each is yielded once
+    la, lb = leaf(), leaf()
+    rep = CodeData(blocks=((Instruction("L", Constant(la), line_number=1), Instruction("L", Constant(lb), line_number=1)), (Instruction("L", Constant(la), line_number=2), Instruction("L", Constant(lb), line_number=2))),
+                   filename="f", first_line_number=1, name="rep", stacksize=1, _additional_args=(Constant(lb, 5),))
+    got = list(rep)
+    ctx.prove("iter.a_nested_code_object_loaded_by_several_instructions_is_yielded_once", z3.BoolVal(len(got) == 2 and got[0] is la and got[1] is lb), detail=repr([g.name for g in got]))
     shapes = [tuple(tuple(b) for b in s) for s in [("C",), ("N",), ("CC",), ("nC", "i"), ("C", "C"), ("iN", "Cn"), ("CC", "CC")]]
     n = 0
     for shape in shapes:
@@ -601,9 +607,11 @@ def _register_iter_generic():
             def all_code_data(self):
                 log.append(self.stacksize)
                 yield ("subtree", self.stacksize)
+                yield grand()       # every child has a grandchild that is an *equal* CodeData value (a distinct code object under another parent)
         ns = rewrite.compile_defs(code_data, [copy.deepcopy(fn)], {}, "CodeData.all_code_data")
         f = ns["all_code_data"]
         # three different children that share name, file and first line (two lambdas on one line do)
+        grand = lambda: CodeData(blocks=((Instruction("RETURN_VALUE", line_number=1),),), filename="f", first_line_number=1, name="<lambda>", stacksize=9)
         kids = [Child(blocks=((Instruction("OP%d" % k, line_number=1),),), filename="f", first_line_number=1, name="<lambda>", stacksize=k) for k in (1, 2, 3)]
 
         class Parent:
@@ -612,7 +620,8 @@ def _register_iter_generic():
         p = Parent()
         got = list(f(p))
         ctx.prove("all_code_data.self_first", z3.BoolVal(bool(got) and got[0] is p))
-        ctx.prove("all_code_data.then_the_subtree_of_every_child_in_order", z3.BoolVal(got[1:] == [("subtree", 1), ("subtree", 2), ("subtree", 3)] and log == [1, 2, 3]), detail=repr(got[1:]))
+        ctx.prove("all_code_data.then_the_subtree_of_every_child_in_order(equal code objects under different parents are all yielded)",
+                  z3.BoolVal(got[1:] == [("subtree", 1), grand(), ("subtree", 2), grand(), ("subtree", 3), grand()] and log == [1, 2, 3]), detail=repr(got[1:])[:300])
     harness("iter.all_code_data.inductive_step", props=["C14"], functions=["code_data.CodeData.all_code_data"], configs="any",
             assumes=["meta-step: structural induction over the nesting depth (the recursive call on a child is the hypothesis)"],
             notes="modular recursion: all_code_data yields the object itself first and then, for every child that iteration yields, that child's whole subtree")(h_all)
